@@ -60,6 +60,15 @@ func runTotal(s string, tag string, long bool) totalEvent {
 		t0 := time.Now()
 		f()
 		ms := int(time.Since(t0) / time.Millisecond)
+		// a slow call is measured again (twice) before it counts: wall-clock time on a loaded machine
+		// must not turn into a verdict; the minimum of the measurements is logged
+		for retry := 0; retry < 2 && ms > 1000; retry++ {
+			t1 := time.Now()
+			f()
+			if m := int(time.Since(t1) / time.Millisecond); m < ms {
+				ms = m
+			}
+		}
 		if ms > ev.MaxMs {
 			ev.MaxMs, ev.Slow = ms, name
 		}
